@@ -248,6 +248,7 @@ func main() {
 
 	facts := map[string]any{"consts": consts}
 	structural(l, facts, *out)
+	shapes(l, *out)
 	if *factsPath != "" {
 		js, _ := json.MarshalIndent(facts, "", " ")
 		os.WriteFile(*factsPath, js, 0o644)
